@@ -29,7 +29,12 @@ def r_constructors(rule, root=None):
         else:
             rule.bad("ctor|%s" % name, "JitFunction::%s fills %s; each advertised count must come from its namesake (%s)" % (name, bad, {k: want[k] for k in bad}), A.where(fn))
         t = txt(fn["body"])
-        if "letf=build_asm_fn_with_storage::<A>(self.0.data(),storage);letptr=f.as_ptr();" in t:
+        # the function pointer (however many lets it passes through) is `<mapping>.as_ptr()` of the mapping
+        # just assembled from self.0.data(), and that mapping is what is stored
+        mf = t.fmatch("let$F=build_asm_fn_with_storage::<A>(self.0.data(),storage);")
+        folded = txt(A.inline_lets_deep(fn["body"]))
+        ptr_ok = mf is not None and ("transmute::<*conststd::ffi::c_void," in str(folded)) and (">(%s.as_ptr())" % mf["$F"]) in str(folded)
+        if ptr_ok and f.get("mmap") == "%s.into()" % mf["$F"]:
             rule.ok("JitFunction::%s: the function pointer is the start of the mapping just assembled for this function's data" % name)
         else:
             rule.bad("ctor|%s|ptr" % name, "JitFunction::%s must assemble self.0.data() and take the pointer of that mapping" % name, A.where(fn))
